@@ -155,6 +155,35 @@ func (p c12) Gen(t *rapid.T, env *Env) (*Case, []*Out) {
 			break
 		}
 	}
+	// an object default whose keys meet in one Go field name once they are turned into identifiers (user_id and userId,
+	// the old and the new spelling side by side): whatever is emitted for it is a function of the document (seeded
+	// change s113: a lookup table filled by ranging over the default object, last writer wins)
+	if afs := argFiles(w, args); !stdin && len(afs) > 0 && rapid.IntRange(0, 5).Draw(t, "defaultkeys") == 0 {
+		for _, f := range afs {
+			if !f.RootObj {
+				continue
+			}
+			props, _ := f.Doc.Get("properties")
+			po, ok := props.(Obj)
+			if !ok {
+				continue
+			}
+			po = append(append(Obj{}, po...), KV{f.Tag + "dflt", Obj{{"type", "object"},
+				{"properties", Obj{{"user_id", Obj{{"type", "integer"}}}, {"display-name", Obj{{"type", "string"}}}}},
+				{"default", Obj{{"user_id", 1}, {"userId", 2}, {"display-name", "a"}, {"display_name", "b"}, {"Name", "c"}, {"name", "d"}}}}})
+			nf := *f
+			nf.Doc = append(Obj{}, f.Doc...).Set("properties", po)
+			cp := *w
+			cp.Files = append([]*SFile{}, w.Files...)
+			for i := range cp.Files {
+				if cp.Files[i] == f {
+					cp.Files[i] = &nf
+				}
+			}
+			w = &cp
+			break
+		}
+	}
 	// a JSON object with two keys that differ only in case ("description" and "Description"): encoding/json matches field
 	// names case-insensitively, so both feed one field and the LAST one wins - key order becomes meaningful (known finding
 	// KF-C12-1; the perturbation label says so)
